@@ -15,7 +15,11 @@ FINISH = dict(level="proof", rule=(
     "random lists up to length 24 over {-1, 0..2, 12..40} with repeats, sources below and above their slot, socketpair and exec "
     "descriptor placed below / inside / above the scratch area and next to each other, fork and vfork, second start of the same "
     "Runner; a malformed stream (listed numbers that are not open) capped at 10%.  Non-trivial: a list with at least one entry "
-    "out of place; distinct = distinct (list, exec, socketpair, mode)."))
+    "out of place; distinct = distinct (list, exec, socketpair, mode).  Container histories: in one container, requests carrying a "
+    "descriptor list / executable descriptor / cgroup descriptor that are refused (no arguments, name not in PATH), fail while launching (missing "
+    "program, executable descriptor that cannot be executed, invalid resource limit), are vetoed by SyncFunc, are cancelled, exit or are killed, "
+    "alone, as the first request of a fresh container, and in random mixed histories with Open / Ping / Reset in between; every program started "
+    "afterwards (and the same configuration once more) has exactly its list open."))
 
 HDR = "From GS Require Import Launch.FdShuffle Launch.FdShuffleProofs Launch.EvalFd.\nOpen Scope Z_scope.\n"
 
@@ -91,7 +95,8 @@ def run(c):
     with open(inp, "w") as f:
         for x in cases:
             f.write(json.dumps({k: v for k, v in x.items() if not k.startswith("_")}) + "\n")
-    p = subprocess.run([exe, inp, outp, scratch], stdout=subprocess.PIPE, stderr=subprocess.PIPE, timeout=1200)
+    # (bound of the thorough tier raised from 1200 s: on a machine loaded by other work its 4300 cases + 24000 concurrent starts need longer)
+    p = subprocess.run([exe, inp, outp, scratch], stdout=subprocess.PIPE, stderr=subprocess.PIPE, timeout=1200 if c.quick() else 7200)
     if p.returncode != 0:
         raise RuntimeError("h_c06 failed: " + p.stderr.decode()[-2000:])
     obs = [json.loads(l) for l in open(outp)]
@@ -168,7 +173,7 @@ def run(c):
 
     def shard(k):
         body = HDR + "Definition cs := %s.\nDefinition M := Eval vm_compute in failing launch_ok cs.\nPrint M.\n" % coq_list([items[i] for i in sh[k]])
-        return [sh[k][j] for j in c.parse_nums(c.parse_printed(c.coq_eval("fd%d" % k, body, timeout=1200), "M").replace("%N", ""))]
+        return [sh[k][j] for j in c.parse_nums(c.parse_printed(c.coq_eval("fd%d" % k, body, timeout=1200 if c.quick() else 7200), "M").replace("%N", ""))]
     with cf.ThreadPoolExecutor(max_workers=nsh) as ex_:
         for res in ex_.map(shard, range(nsh)):
             for i in res:
@@ -218,6 +223,113 @@ def run(c):
                                    {"case": x, "child": o["table"], "expected_slots": {k: list(v) for k, v in want.items()}})
         elif any(t[4] for t in o["table"]):
             c.finding_or_violation(canon("close-on-exec set on a slot"), {"case": x, "child": o["table"]})
+    # ---- histories inside one container: requests that carry descriptors and are refused by the container, fail while launching, are vetoed
+    # by the caller's SyncFunc, are cancelled or simply run -- and then a program: whatever the container has been asked before, the program has
+    # exactly its own list open (nothing that an earlier request carried), and the same configuration started again sees the same
+    hscr = c.tmpdir("cth")
+    hr = c.rng("histories")
+    closing = [[], [0], [1, 0], [0, 0], [0, 1, 2], [2, 0, 1, 1], [0, 1, 2, 3, 0, 1]]
+    carry = [dict(pool=3, list=[0, 1, 2]), dict(pool=2, list=[1, 0, 1], execfd="target"), dict(pool=1, list=[0], execfd="target", cgroupfd=True),
+             dict(pool=4, list=[3, 2, 1, 0, 0, 2]), dict(pool=1, list=[], execfd="target"), dict(pool=5, list=[0, 1, 2, 3, 4], cgroupfd=True)]
+    kinds = ["noargs", "emptyargs", "notinpath", "notfound", "badexec", "badrlimit", "veto", "cancel", "exit", "killed"]
+    neutral = ["open", "ping", "reset"]
+
+    def request(kind, k):
+        st = dict(carry[k % len(carry)], kind=kind)
+        if kind == "badexec":
+            st["execfd"] = ("data", "dir")[k % 2]
+        if kind == "veto" and k % 2:
+            st["sync_after"] = True
+        elif kind != "veto" and k % 3 == 1:
+            st["sync"] = True
+        elif kind not in ("veto", "cancel") and k % 5 == 2:
+            st["sync_after"] = True
+        return st
+
+    def probes(k, again=True):
+        l = closing[k % len(closing)]
+        ps = [dict(kind="probe", pool=4, list=l, **({"execfd": "target"} if k % 4 == 3 else {}))]
+        return ps + ([dict(kind="probe", again=True)] if again else [])
+    hcases = []
+
+    def hadd(steps, klass, fresh=False):
+        hcases.append({"id": len(hcases), "steps": steps, "fresh": fresh, "_klass": klass})
+    hadd(probes(4), "plain", fresh=True)
+    # one request that does not end in a running program, then programs
+    for ki, kind in enumerate(kinds):
+        for v in range(2 if c.quick() else len(carry)):
+            k = ki + v * 3 if c.quick() else v
+            hadd([request(kind, k)] + probes(ki + v), "single:" + kind)
+    # the first request a container ever receives is such a request
+    for ki, kind in enumerate(["noargs", "notinpath", "badexec", "veto"] if c.quick() else kinds):
+        hadd([request(kind, ki + 1)] + probes(ki + 1), "first-request:" + kind, fresh=True)
+    # mixed histories: several such requests, programs and other commands in between
+    for h in range(10 if c.quick() else 150):
+        steps = []
+        for _ in range(hr.randint(2, 6)):
+            u = hr.random()
+            if u < 0.15:
+                steps.append(dict(kind=hr.choice(neutral)))
+            elif u < 0.3:
+                steps += probes(hr.randrange(100), again=False)
+            else:
+                kind = hr.choice(kinds if hr.random() < 0.8 else ["noargs", "emptyargs", "notinpath"])
+                steps.append(request(kind, hr.randrange(100)))
+        hadd(steps + probes(hr.randrange(100)), "mixed", fresh=h % 5 == 0)
+    import time
+    t0 = time.time()
+    hobs = c.run_harness(cexe, [{k: v for k, v in x.items() if not k.startswith("_")} for x in hcases], env=dict(os.environ, VERIF_SCRATCH=hscr), args=("history",), timeout=900)
+    c.cov["container_history_seconds"] = round(time.time() - t0, 1)
+    assert len(hobs) == len(hcases), (len(hobs), len(hcases))
+    nprobe = 0
+    for x, o in zip(hcases, hobs):
+        if "harness_err" in o:
+            raise RuntimeError(o["harness_err"])
+        # everything this container was asked before this case belongs to the history
+        earlier = [(y, p) for y, p in zip(hcases, hobs) if p.get("container") == o["container"] and y["id"] < x["id"]]
+        carried = []                                       # (identity, description) of every descriptor an earlier request carried
+        for y, p in earlier:
+            for si, s in enumerate(p["steps"]):
+                carried += [(tuple(idn), "%s of request %d of case %d (%s)" % (role, si, y["id"], s["kind"])) for role, idn in s.get("carried", {}).items()]
+        hist = [s["kind"] for s in x["steps"]]
+        c.count(("container-history", tuple(json.dumps(s, sort_keys=True) for s in x["steps"]), x["fresh"]), klass="container-history:" + x["_klass"])
+        for si, (st, s) in enumerate(zip(x["steps"], o["steps"])):
+            if s["kind"] != "probe":
+                carried += [(tuple(idn), "%s of request %d of this case (%s: %s)" % (role, si, s["kind"], str(s.get("error"))[:60])) for role, idn in s.get("carried", {}).items()]
+                continue
+            if "skipped" in s:
+                continue
+            nprobe += 1
+            before = [dict(t, outcome={"status": q.get("status"), "error": str(q.get("error"))[:100]}) for t, q in zip(x["steps"][:si], o["steps"][:si])]
+            canon = lambda what, **kw: dict({"kind": "descriptor-table", "what": what, "mode": "container-history", "requests_before": hist[:si],
+                                             "entries": len(s.get("want", [])), "fresh_container": o["requests_before"] == 0}, **kw)
+            rep = {"history_in_this_container": {"earlier_cases": [{"case": y["id"], "steps": y["steps"]} for y, _ in earlier], "this_case_before_the_program": before},
+                   "program": st, "observed": {"status": s.get("status"), "error": s.get("error"), "table": s.get("table"), "no_report": s.get("no_report")}}
+            if s.get("status") != 1 or "table" not in s:
+                c.finding_or_violation(canon("a program started in the container after this history did not run or report", status=s.get("status"),
+                                             error=str(s.get("error"))[:80]), rep, klass="descriptor-table:container-history")
+                continue
+            tab = {t[0]: (t[1], t[2]) for t in s["table"]}
+            want = {i: tuple(w) for i, w in enumerate(s["want"])}
+            rep["expected_slots"] = {k: list(v) for k, v in want.items()}
+            if tab != want:
+                extra_ = sorted(set(tab) - set(want))
+                origin = {}
+                for k in sorted(tab):
+                    if tab[k] != want.get(k):
+                        origin[k] = ([d for idn, d in carried if idn == tab[k]] or
+                                     ["the container init's stderr" if list(tab[k]) == o["init_stderr"] else "not a descriptor of any request of this history"])[-1]
+                rep["foreign_descriptors"] = {k: {"identity": list(tab[k]), "close_on_exec": [t[4] for t in s["table"] if t[0] == k][0], "is": origin[k]} for k in origin}
+                c.finding_or_violation(canon("program's table differs from the list", extra_open=extra_,
+                                             wrong_or_missing_slots=sorted(k for k in want if tab.get(k) != want[k]),
+                                             extra_from_earlier_request=sorted(k for k in origin if " of request " in origin[k])),
+                                       rep, klass="descriptor-table:container-history")
+            elif any(t[4] for t in s["table"]):
+                c.finding_or_violation(canon("close-on-exec set on a slot"), rep, klass="descriptor-table:container-history")
+            # the descriptors of this program belong to the history of the ones after it
+            carried += [(tuple(idn), "%s of request %d of this case (program that ran)" % (role, si)) for role, idn in s.get("carried", {}).items()]
+    c.cov["container_history_cases"] = len(hcases)
+    c.cov["container_history_programs_observed"] = nprobe
     c.cov["container_launches"] = len(ccases)
     c.cov["launches"] = len(cases) - skipped
     c.cov["skipped_cases"] = skipped
